@@ -29,6 +29,7 @@ type PayloadCase struct {
 	Unknown  string // name of an injected unknown field ("" if none)
 	HasAttrs bool   // the payload has an "attributes" member
 	HasRels  bool
+	ResMeta  string // JSON text of the resource-level meta object ("" if the payload has none)
 	Text     string
 }
 
@@ -200,7 +201,8 @@ func ResourcePayload(t *rapid.T, ts *TypeSpec, o PayloadOpts) *PayloadCase {
 	}
 
 	if rapid.IntRange(0, 4).Draw(t, "resmeta") == 0 {
-		members = append(members, `"meta":{"k":`+strconv.Itoa(rapid.IntRange(0, 9).Draw(t, "metaval"))+`}`)
+		p.ResMeta = `{"k` + strconv.Itoa(rapid.IntRange(0, 3).Draw(t, "metakey")) + `":` + strconv.Itoa(rapid.IntRange(0, 9).Draw(t, "metaval")) + `}`
+		members = append(members, `"meta":`+p.ResMeta)
 	}
 
 	if rapid.IntRange(0, 4).Draw(t, "reslinks") == 0 {
